@@ -32,6 +32,12 @@ REWRITES = [
     ("R0-attr", re.compile(r"^[ \t]*#\[(?:default|inline|allow\([^\]]*\)|cfg\(any\(test, feature = \"hbs_lms_verif\"\)\)|cfg\(test\))\][ \t]*\n(?:[ \t]*[^\n]*LmsH2[^\n]*\n)?", re.M), "",
      "inert attributes (#[default], #[inline], #[allow]) dropped; cfg(test)/hook-only LmsH2 lines dropped (default build)"),
     ("R7", re.compile(r"panic!\((?:[^()]|\([^()]*\))*\)"), "vpanic()", "panic!(..) -> vpanic() whose precondition is false: reaching it is a failed obligation"),
+    ("R13-param-ne", re.compile(r"([A-Za-z_][\w\.]*\.(lmots|lms)_parameter)\s*!=\s*([A-Za-z_][\w\.]*\.\2_parameter)"), r"!\2_parameter_eq(&\1, &\3)",
+     "`a != b` on LmotsParameter/LmsParameter (derive(PartialEq)) -> !{lmots,lms}_parameter_eq(&a,&b): field-wise equality assumed"),
+    ("R13-param-eq", re.compile(r"([A-Za-z_][\w\.]*\.(lmots|lms)_parameter)\s*==\s*([A-Za-z_][\w\.]*\.\2_parameter)"), r"\2_parameter_eq(&\1, &\3)",
+     "`a == b` on LmotsParameter/LmsParameter -> {lmots,lms}_parameter_eq(&a,&b)"),
+    ("R11-slice-eq", re.compile(r"([A-Za-z_][\w\.]*\.as_slice\(\))\s*==\s*([A-Za-z_][\w\.]*)"), r"slice_eq(\1, \2)",
+     "`x.as_slice() == y` on byte slices -> slice_eq(x.as_slice(), y) (element-wise equality of core's slice PartialEq)"),
     ("R9-qualified", re.compile(r"\b(?:crate::)?(?:hss::)?(lm_ots|lms|hss)::verify::(verify|generate_public_key_candidate)\b"), r"\1_\2",
      "same-named functions of different modules get the module as prefix: lms::verify::verify -> lms_verify (definitions renamed with @opt rename)"),
     ("R9-flatten", re.compile(r"\b(?:crate::)?(?:(?:lm_ots|lms|hss|util|constants|hasher|signing|verify|definitions|parameters|parameter|keygen|helper|coef|aux|reference_impl_private_key|seed_derive|super)::)+(?=[A-Za-z_])"), "",
